@@ -114,7 +114,7 @@ void check_file(Src &s, Ctx &c) {
         else if (k == 2) { off = s.range(0, (long)flen); nb = 0; }
         else { off = s.range(0, (long)flen + 10); nb = (long)flen - off + s.range(1, 100); if (nb < 0) nb = 1; }   // out of range
         alignas(16) uint8_t d[16]; memset(d, 0xEE, 16);
-        errno = 0;
+        errno = g_errno_poison;
         int fds0 = count_open_fds();
         bool ok = qhashmd5_file(g_tmp.c_str(), (off_t)off, (ssize_t)nb, d);
         int fds1 = count_open_fds();
@@ -206,7 +206,7 @@ void check_concurrent(Src &s, Ctx &c) {
 }  // namespace
 extern "C" void __tsan_on_report(void *) { g_tsan_reports++; }
 
-bool vf_configure(Ctx &c) {
+bool vf_configure(Ctx &c) { g_errno_repoison = 1;
     if (c.mode != "C18") return false;
     c.deciding = FUNC | MEM | CRASH | HANG; c.noteonly = LEAK;
     if (const char *w = ref::selftest()) { fprintf(stderr, "reference implementation fails its published vectors: %s\n", w); exit(2); }
